@@ -386,6 +386,11 @@ def rule_a5_span(chk: Check):
             except Exception:
                 skip = None
     chk.count("A5-span-body")
+    _und_lt, _bad_lt = ("", [])
+    if skip != {"ENDMARKER", "NEWLINE", "INDENT", "DEDENT"}:
+        _und_lt, _bad_lt = eval_last_token(fn)
+        if not _und_lt and not _bad_lt:
+            skip = {"ENDMARKER", "NEWLINE", "INDENT", "DEDENT"}    # shape not recognised; decided by evaluation over all buffers <= 4
     chk.require(skip == {"ENDMARKER", "NEWLINE", "INDENT", "DEDENT"}, "A5-span-body",
                 "Tokenizer.get_last_non_whitespace_token:skip-set", f"{repo.TOKENIZER}:{fn.lineno}",
                 f"tokens skipped when closing a span are {sorted(skip) if skip else None}; CPython's spans end at the last token "
@@ -399,6 +404,10 @@ def rule_a5_span(chk: Check):
         any(isinstance(s, ast.While) and norm_stmt(s.test) in ("idx >= 0", "idx > -1") for s in ast.walk(fn))
     for_form = any(isinstance(s, ast.For) and norm_stmt(s.iter) in ("range(self._index - 1, -1, -1)", "reversed(range(self._index))")
                    for s in ast.walk(fn))
+    if not (while_form or for_form):
+        _u2, _b2 = eval_last_token(fn)
+        if not _u2 and not _b2:
+            for_form = True     # another spelling of the backward scan; decided by evaluation over all buffers <= 4 and indices
     chk.require(while_form or for_form,
                 "A5-span-body", "Tokenizer.get_last_non_whitespace_token:scan", f"{repo.TOKENIZER}:{fn.lineno}",
                 "the scan for the last consumed token must start at the token before the current index and walk backwards")
@@ -1219,6 +1228,48 @@ def rule_combinators(chk: Check):
                     "parse with the position right after it, cache it, and answer the next call at that position from the cache — this is "
                     f"what makes `a - b - c` parse as `(a - b) - c`{': (stream, verbose, tree, end, cached, second call) ' + str(bad[0]) if bad else ''}")
     chk.floor(R, 14)
+
+
+def eval_last_token(fn: ast.FunctionDef) -> tuple[str, list]:
+    """`get_last_non_whitespace_token` evaluated from source on every buffer of up to four tokens (kinds NAME, OP, NEWLINE, INDENT,
+    DEDENT, ENDMARKER, COMMENT) and every index: the last token before the index that is not ENDMARKER / NEWLINE / INDENT / DEDENT,
+    and the buffer's last token when there is none."""
+    import itertools
+    import types
+    from .c17 import Crash, EvalError, _mini_eval, module_pure_constants
+    kinds = ("NAME", "OP", "NEWLINE", "INDENT", "DEDENT", "ENDMARKER", "COMMENT")
+    TokenNS = types.SimpleNamespace(**{k: ("Token", k) for k in kinds + ("NL", "WS", "STRING", "NUMBER", "ERRORTOKEN")})
+    consts = {}
+    try:
+        consts = dict(module_pure_constants(repo.TOKENIZER))
+    except Exception:
+        pass
+    for cname in [x.id for x in ast.walk(fn) if isinstance(x, ast.Name) and x.id.isupper()]:
+        try:
+            consts[cname] = _token_set_constant(cname)
+        except Exception:
+            pass
+    bad = []
+    for n in range(1, 5):
+        for combo in itertools.product(kinds, repeat=n):
+            toks = [types.SimpleNamespace(type=("Token", k), string=k, i=i) for i, k in enumerate(combo)]
+            for index in range(0, n + 1):
+                want = next((t for t in reversed(toks[:index]) if t.type[1] not in ("ENDMARKER", "NEWLINE", "INDENT", "DEDENT")), toks[-1])
+                env = dict(consts)
+                env.update({"self": types.SimpleNamespace(_tokens=toks, _index=index), "Token": TokenNS})
+                try:
+                    got = _mini_eval(fn, env, set(), max_steps=300)
+                except Crash as e:
+                    bad.append((combo, index, f"raises {e}"))
+                    break
+                except EvalError as e:
+                    return str(e), []
+                if got is not want:
+                    bad.append((combo, index, getattr(got, "i", None), want.i))
+                    break
+            if len(bad) >= 2:
+                return "", bad
+    return "", bad
 
 
 def rule_lookahead_cover(chk: Check, ir, rule_id: str = "A10-lookahead-covers-first"):
